@@ -230,6 +230,14 @@ Theorem ALGO_engine_calls : forall g w a w' cs,
 Proof. exact engine_step_calls. Qed.
 Print Assumptions ALGO_engine_calls.
 
+(* C03, no echo: sync() on behalf of a side whose object the engine made itself (the events of such an object are the
+   echo of the engine's own create / upload) issues no provider call, whatever the state of the entry *)
+Theorem ALGO_echo_absorbed : forall g w e en s k w' cs fl,
+  SCtx g w e en -> e_ign en = INone -> s_oid (gs en s) = Some (ostr_k k) -> g_get k (g_of g s) = None ->
+  sync_side w e s = ROk (w', cs, fl) -> cs = [].
+Proof. exact mirror_side_no_calls. Qed.
+Print Assumptions ALGO_echo_absorbed.
+
 (* users act on side sd only (any in-domain history, any schedule) => EVERY provider call the engine issues in the
    whole run - create / upload / delete / rename / mkdir, successful or refused - goes to the other side *)
 Theorem ALGO_origin_untouched : forall t0 lg0 acts sd w cs,
